@@ -9,6 +9,7 @@ import (
 
 	"github.com/ozanh/ugo"
 	"github.com/ozanh/ugo/parser"
+	"github.com/ozanh/ugo/token"
 )
 
 func litOfSexp(s *Sexp) parser.Expr {
@@ -160,3 +161,100 @@ func runOptProg(args []*Sexp) *Sexp {
 }
 
 var _ = math.Abs
+
+// ---- translation validation of the optimizer on expression trees ----
+
+// exprSexp prints an expression of the parser's syntax tree; nodes outside the fragment are
+// numbered by their text.
+func exprSexp(e parser.Expr, others map[string]int) *Sexp {
+	bin := func(tag string, n *parser.BinaryExpr) *Sexp {
+		return L(A(tag), exprSexp(n.LHS, others), exprSexp(n.RHS, others))
+	}
+	switch n := e.(type) {
+	case *parser.ParenExpr:
+		return exprSexp(n.Expr, others)
+	case *parser.IntLit:
+		return L(A("l"), L(A("i"), A(strconv.FormatInt(n.Value, 10))))
+	case *parser.UintLit:
+		return L(A("l"), L(A("u"), A(strconv.FormatUint(n.Value, 10))))
+	case *parser.FloatLit:
+		return L(A("l"), L(A("f"), A(fmt.Sprintf("%016x", math.Float64bits(n.Value)))))
+	case *parser.StringLit:
+		return L(A("l"), L(A("s"), hexAtom([]byte(n.Value))))
+	case *parser.BoolLit:
+		if n.Value {
+			return L(A("l"), L(A("b"), A("1")))
+		}
+		return L(A("l"), L(A("b"), A("0")))
+	case *parser.CharLit:
+		return L(A("l"), L(A("c"), A(strconv.FormatInt(int64(n.Value), 10))))
+	case *parser.UndefinedLit:
+		return L(A("l"), L(A("n")))
+	case *parser.Ident:
+		if len(n.Name) == 2 && n.Name[0] == 'p' && n.Name[1] >= '0' && n.Name[1] <= '9' {
+			return L(A("v"), A(n.Name[1:]))
+		}
+	case *parser.UnaryExpr:
+		if t, ok := tokAtoms[n.Token]; ok {
+			return L(A("un"), A(t), exprSexp(n.Expr, others))
+		}
+	case *parser.CondExpr:
+		return L(A("cond"), exprSexp(n.Cond, others), exprSexp(n.True, others), exprSexp(n.False, others))
+	case *parser.BinaryExpr:
+		switch n.Token {
+		case token.Equal:
+			return bin("eq", n)
+		case token.NotEqual:
+			return bin("ne", n)
+		case token.LAnd:
+			return bin("and", n)
+		case token.LOr:
+			return bin("or", n)
+		}
+		if t, ok := tokAtoms[n.Token]; ok {
+			return L(A("bin"), A(t), exprSexp(n.LHS, others), exprSexp(n.RHS, others))
+		}
+	}
+	txt := e.String()
+	id, ok := others[txt]
+	if !ok {
+		id = len(others) + 1
+		others[txt] = id
+	}
+	return L(A("other"), A(strconv.Itoa(id)))
+}
+
+var tokAtoms = map[token.Token]string{
+	token.Add: "add", token.Sub: "sub", token.Mul: "mul", token.Quo: "quo", token.Rem: "rem",
+	token.And: "and", token.Or: "or", token.Xor: "xor", token.AndNot: "andnot", token.Shl: "shl", token.Shr: "shr",
+	token.Less: "lt", token.LessEq: "le", token.Greater: "gt", token.GreaterEq: "ge", token.Not: "not",
+}
+
+// (case id optexpr <limit> <src hex>): the script ends with `return <expr>`; the expression before and after
+// the optimizer -> (optexpr <before> (after <after>)) | (optexpr <before> (refused)) | (parse-error) ...
+func runOptExpr(args []*Sexp) (out *Sexp) {
+	defer func() {
+		if r := recover(); r != nil {
+			out = L(A("panic"), A(sanitize(fmt.Sprint(r))))
+		}
+	}()
+	limit := int(atomInt(args[0]))
+	src := atomBytes(args[1])
+	fileSet := parser.NewFileSet()
+	srcFile := fileSet.AddFile("(main)", -1, len(src))
+	pf, err := parser.NewParser(srcFile, src, nil).ParseFile()
+	if err != nil || len(pf.Stmts) == 0 {
+		return L(A("parse-error"))
+	}
+	ret, ok := pf.Stmts[len(pf.Stmts)-1].(*parser.ReturnStmt)
+	if !ok || ret.Result == nil {
+		return L(A("no-return"))
+	}
+	others := map[string]int{}
+	before := exprSexp(ret.Result, others)
+	opt := ugo.NewOptimizer(srcFile, ugo.NewSymbolTable(), ugo.CompilerOptions{OptimizerLimit: limit})
+	if err := opt.Optimize(pf); err != nil {
+		return L(A("optexpr"), before, L(A("refused")), A(sanitize(firstLine(err.Error()))))
+	}
+	return L(A("optexpr"), before, L(A("after"), exprSexp(ret.Result, others)))
+}
